@@ -11,8 +11,8 @@ DRIVERS = [
     dict(name="c06_conv", src="c06_kernel.cpp", defines=["OP_CONV"], ops=["conv"]),
     dict(name="c06_conva", src="c06_kernel.cpp", defines=["OP_CONVA"], ops=["conva"]),
     dict(name="c06_sweep", src="c06_kernel.cpp", defines=["OP_SWEEP"], ops=["convsweep"], opt="-O2"),
-    dict(name="c06_path_lp32", src="c06_path.cpp", defines=["VERIF_CFG=verif_cfg32"], ops=["store", "load", "arg", "ret", "cbarg", "cbret", "equiv"]),
-    dict(name="c06_path_wide", src="c06_path.cpp", defines=["VERIF_CFG=verif_cfgwide"], ops=["wstore", "wload", "warg", "wret", "wcbarg", "wcbret", "wequiv"]),
+    dict(name="c06_path_lp32", src="c06_path.cpp", defines=["VERIF_CFG=verif_cfg32"], ops=["store", "load", "arg", "ret", "cbarg", "cbret", "equiv", "storemix"]),
+    dict(name="c06_path_wide", src="c06_path.cpp", defines=["VERIF_CFG=verif_cfgwide"], ops=["wstore", "wload", "warg", "wret", "wcbarg", "wcbret", "wequiv", "wstoremix"]),
 ]
 
 
@@ -116,6 +116,17 @@ def gen_cases(tier, rng):
             for v in sorted(set(guest_vals)):
                 for op in ("load", "ret", "cbarg"):
                     cases.append("%s%s %s %s %d" % (pre, op, abi, k, v))
+        # a plain value of one integer type stored through a tainted pointer to another type (every ordered pair)
+        for k in KINDS:
+            for f in KINDS:
+                if "wchar" in (k, f) or (k == "bool" and f in ("char", "schar", "uchar")):
+                    continue
+                g = guest_kind(abi, k)
+                vs = [v for v in vals if in_range(f, v)]
+                near = [v for v in vs if any(abs(v - b) <= 1 for kk in (k, g, f) for b in (lo(kk), hi(kk)))]
+                pick = sorted(set(near + rng.sample(vs, min(len(vs), 3 if tier == "quick" else 20))))
+                for v in pick:
+                    cases.append("%sstoremix %s %s %s %d" % (pre, abi, k, f, v))
     return cases
 
 
